@@ -88,6 +88,7 @@ type Ctx struct {
 	depth    int
 	pfSigs   map[string]string
 	embTags  int
+	nameSeen map[string]int
 }
 
 type Cover struct {
